@@ -1,0 +1,13 @@
+//go:build verif
+
+package event
+
+// Thin wrappers for the verification harness (query DB, property C20). No logic.
+
+// VerifGovMergeEvents is mergeEvents (the per-block merge before the events reach the handlers).
+func VerifGovMergeEvents(round int64, block string, events []Event) ([]Event, error) {
+	return mergeEvents(round, block, events)
+}
+
+// VerifGovAddStat is the handler dispatch for one (merged) event.
+func VerifGovAddStat(edb *EventDb, e Event) error { return edb.addStat(e) }
